@@ -249,7 +249,7 @@ def run(ctx):
     t.remove_class("foo").add_class(" fo ", prepend=True)
     ctx.sample({"history": ex, "class_after": t.attrs.get("class")})
     # 2. random histories
-    for _ in range(ctx.budget(4000, 250000)):
+    for _ in range(ctx.budget(4000, 4000000)):
         ops = []
         for _ in range(rng.choice([1, 2, 3, 5, 8, 15, 25])):
             r = rng.random()
